@@ -260,6 +260,19 @@ CLAIMED = {
         "Twelve crash defects of the pinned commit found this way were repaired in /repo (see known_findings.json 'fixed')."),
   technique="Lean 4 proof (totality by nested induction) + crash-monitor exploration + full-model correspondence",
   design="DESIGN.md section 7 C06"),
+ "C08": dict(
+  text=("Lean theorems (lean/Props/C08.lean): coscan_invariant — for ANY two file lists containing a file (other files, orders, positions, outcomes of the other files all arbitrary) the findings "
+        "reported for it are the same, both equal to scanning it alone (derived from Props.C04.isolation); report_order_canonical (grouping is a stable sort of the findings: Props.C09); a state-machine "
+        "model of the process-wide state shared by scanner objects (lean/Bandit/Process.lean: settings and blacklist data live on shared function objects, test lists per manager): sequence_partial "
+        "(if the most recent construction before a run wrote that manager's own configuration, the run equals a fresh-process run, whatever was constructed or run earlier), construct_then_run, "
+        "runs_do_not_leak, exec_append, NEG_later_construct_leaks (kernel-checked witness of the open known finding C08-shared-plugin-config). PARTIAL by nature: hash-seed independence, "
+        "directory enumeration order and the absence of memory addresses cannot be stated about a pure model; they are explored on every run: per-file findings incl. message texts alone / together "
+        "/ shuffled / in supersets; histories of construct/run operations over managers with equal or different settings, each run compared with a fresh run and with the Lean model's prediction of "
+        "which construction's settings it reads (driver op process_exec); bandit's examples through the real CLI in subprocesses under several PYTHONHASHSEED values x machine-readable formats — "
+        "byte-identical apart from the timestamp and free of 'object at 0x…'; files created in different directory-entry orders. The B202 memory-address defect of the pinned commit was repaired "
+        "(/repo fix 9aac79b), get_url's registry mutation too (40b2287)."),
+  technique="Lean 4 proof (co-scan invariance, process-state machine) + determinism exploration (hash seeds, orders, histories)",
+  design="DESIGN.md section 7 C08"),
 }
 
 REASON_PENDING = "check not built yet (work in progress; DESIGN.md section 11 gives the build order)"
